@@ -62,12 +62,16 @@ func c34SnapGen(r *vh.Rand, tier string, n int) []c34SnapIn {
 	type cfg struct{ snap, kt, gt string }
 	var cfgs []cfg
 	if tier == "thorough" {
-		for _, s := range []string{"kernel", "brand-gadget", "core18", "some-snap"} {
+		// every combination of tracks for the kernel and the gadget, three each for the base and an application snap
+		for _, s := range []string{"kernel", "brand-gadget"} {
 			for _, kt := range []string{"", "18", "foo"} {
 				for _, gt := range []string{"", "18", "foo"} {
 					cfgs = append(cfgs, cfg{s, kt, gt})
 				}
 			}
+		}
+		for _, s := range []string{"core18", "some-snap"} {
+			cfgs = append(cfgs, cfg{s, "", ""}, cfg{s, "18", "foo"}, cfg{s, "foo", "18"})
 		}
 	} else {
 		cfgs = []cfg{
@@ -78,7 +82,7 @@ func c34SnapGen(r *vh.Rand, tier string, n int) []c34SnapIn {
 	}
 	olds := []string{"", "stable", "latest/stable", "18/stable", "foo/edge"}
 	if tier == "thorough" {
-		olds = append(olds, "18", "edge", "18/edge/fix", "foo", "latest")
+		olds = append(olds, "18/edge/fix")
 	}
 	words := []string{"", "stable", "edge", "latest", "18", "foo"}
 	news := append([]string{}, words...)
